@@ -597,8 +597,8 @@ func BuildRequest(w *World, t *Task, m *MsgSpec) (*http.Request, *Sent, error) {
 	s.EntityID = w.IDPModel.EntityID(s.IdPIssuer)
 	sp := w.spNode(m.SP)
 	s.SPVer = sp.Version
-	if m.BodyFault != "" || m.WriterFault {
-		w.notConformant(s, "transport fault")
+	if (m.BodyFault != "" && m.BodyFault != "short") || m.WriterFault {
+		w.notConformant(s, "transport fault") // a body that arrives in small pieces is ordinary transport behaviour, not a fault
 	}
 	if len(m.Tamper) > 0 {
 		w.notConformant(s, "tampered")
